@@ -3,7 +3,7 @@ TB = "Trusted: python ast, sympy normal forms, the numpy transfer tables (oasa/n
 
 claim(
     "C01",
-    "Static: decides, for every component, option valuation and mesh size, the structural half of derivative correctness (no missing, undeclared, never-stored or stale partial blocks; constant Jacobians only for affine dependence; branch agreement between compute and compute_partials; sibling arms of one setup() re-index rows and columns together) and, for the scalar / element-wise components, that each stored partial is the derivative of the expression compute() evaluates (identity of extracted expressions). Does not decide the values or non-zero positions of hand-indexed tensor Jacobians (P5 / P8 of the design were not built).",
+    "Static: decides, for every component, option valuation and mesh size, the structural half of derivative correctness (no missing, undeclared, never-stored or stale partial blocks; constant Jacobians only for affine dependence; branch agreement between compute and compute_partials; sibling arms of one setup() re-index rows and columns together; a declaration made only in a special first loop iteration covers every later surface too; no Jacobian block is assigned on only one input-dependent branch; no per-surface value leaks from one surface loop into the Jacobian blocks built in a later one) and, for the scalar / element-wise components, that each stored partial is the derivative of the expression compute() evaluates (identity of extracted expressions). Does not decide the values or non-zero positions of hand-indexed tensor Jacobians (P5 / P8 of the design were not built).",
     TB,
     "abstract interpretation (dependency / alias / affine domains) over compute vs declare_partials / compute_partials per option valuation; source-level expression extraction and differentiation (sympy) for the element-wise components",
     "DESIGN.md section 2 C01",
@@ -12,7 +12,7 @@ na("C14", "purely numerical post-conditions of the mesh generators (monotone coo
 
 claim(
     "C03",
-    "Static: decides, per component method and option valuation, that every read-modify-write of persistent storage (outputs, residuals, partials, self.*) is preceded in the same call by a plain store covering the region (typestate), that no branch of an evaluation method tests instance state written at run time (memo flags, cached factors), that no code writes state outside the instance (module globals, class attributes, mutable defaults), that in run-once groups every consumer is added after its producers, that no evaluation method returns early on an input-valued condition before its outputs are written, that compute writes every declared output completely, and that linearisation methods never store into the inputs. Does not decide solver-level hysteresis.",
+    "Static: decides, per component method and option valuation, that every read-modify-write of persistent storage (outputs, residuals, partials, self.*) is preceded in the same call by a plain store covering the region (typestate), that no branch of an evaluation method tests instance state written at run time (memo flags, cached factors), that no code writes state outside the instance (module globals, class attributes, mutable defaults), that in run-once groups every consumer is added after its producers, that no evaluation method returns early on an input-valued condition before its outputs are written, that compute writes every declared output completely (a store through a data-dependent mask guarantees nothing), that compute_partials / linearize assign or reset every Jacobian block on every input-dependent path, and that linearisation methods never store into the inputs. Does not decide solver-level hysteresis.",
     TB,
     "typestate (STALE->FRESH per storage cell) over the abstract interpreter's store events with symbolic region coverage; effect analysis for writes outside the instance",
     "DESIGN.md section 2 C03",
@@ -20,7 +20,7 @@ claim(
 
 claim(
     "C19",
-    "Static: decides the index bookkeeping behind composition of surfaces for all surface lists and mesh sizes: running offsets start at 0, advance by exactly the width of the block they address (polynomial identity), blocks tile axes of length sum-of-advances, per-surface values do not leak from one loop into a later loop or into a scalar attribute used for every surface, totals over the surface list are accumulated commutatively and never overwritten, and every surface key the aerodynamic subsystems read is copied for multi-section surfaces. Does not decide permutation / splitting invariance of numerical results.",
+    "Static: decides the index bookkeeping behind composition of surfaces for all surface lists and mesh sizes: running offsets start at 0, advance by exactly the width of the block they address (polynomial identity; index blocks offset + [lo, hi) stay below the advance for all mesh sizes >= 2), blocks tile axes of length sum-of-advances, per-surface values do not leak from one loop into a later loop or into a scalar attribute used for every surface, totals over the surface list are accumulated commutatively and never overwritten, every surface key the aerodynamic subsystems read is copied for multi-section surfaces, and the MPhys wrapper groups map the same flight-condition inputs onto MPhys names in every option valuation. Does not decide permutation / splitting invariance of numerical results.",
     TB,
     "symbolic prefix-sum analysis of running offsets (loop-carried symbolic integers, uninterpreted linear SUM over the list) and def-use analysis of per-element values across loops",
     "DESIGN.md section 2 C19",
@@ -42,7 +42,7 @@ claim(
 )
 claim(
     "C10",
-    "Static: decides symmetry of the element tables, rigid-body null space and cantilever flexibility of the bending blocks (closed form, sympy), that both stiffness transformations are congruences, that assembly keeps symmetry that exactly the six DOFs of the documented root node are clamped (index a function of the node count only), that the tiny-load threshold is an absolute constant, that Disp reports the solution unmodified, and that the element frames are built without any input-valued selection. Does not decide displacement values.",
+    "Static: decides symmetry of the element tables, rigid-body null space and cantilever flexibility of the bending blocks (closed form, sympy), that both stiffness transformations are congruences, that assembly keeps symmetry that exactly the six DOFs of the documented root node are clamped (index a function of the node count only), that the tiny-load threshold is an absolute constant, that the right-hand side and the reported displacements are completely rewritten on every evaluation, that Disp reports the solution unmodified, and that the element frames are built without any input-valued selection. Does not decide displacement values.",
     TB,
     "constant folding of module tables + sympy identities; AST pattern analysis of einsum congruences and the sparse assembly; symbolic clamp index per option valuation",
     "DESIGN.md section 2 C10",
@@ -64,7 +64,7 @@ claim(
 
 claim(
     "C04",
-    "Static: decides the bookkeeping of the symmetry factor two for every component and option valuation by extensivity typing: under symmetry every observed output is intensive or a full-configuration total, nothing that is not a half-span total is doubled, half and full totals are never added, producers and consumers agree on the type of shared quantities, and every stored partial carries the extensivity quotient of its output and input. Does not decide ghost-mesh geometry or folded influence coefficients.",
+    "Static: decides the bookkeeping of the symmetry factor two for every component and option valuation by extensivity typing: under symmetry every observed output is intensive or a full-configuration total, nothing that is not a half-span total is doubled, half and full totals are never added, producers and consumers agree on the type of shared quantities, every stored partial carries the extensivity quotient of its output and input, and the fuel load applied to the modelled half is half the fuel weight under symmetry and all of it for a full model (also when the symmetry flag is never consulted). Does not decide ghost-mesh geometry or folded influence coefficients.",
     TB,
     "abstract interpretation with an extensivity type domain (half/full-span exponents, panel axes from symbolic shapes, doubling-factor idioms)",
     "DESIGN.md section 2 C04",
@@ -72,7 +72,7 @@ claim(
 
 claim(
     "C17",
-    "Static: decides, as identities of expressions extracted from the source for generic surfaces, that the performance functionals equal the defining formulas of the property statement (L = q S CL, area-weighted coefficients, lift-equals-weight residual and weight, Breguet fuel burn, mass-weighted cg given Equilibrium's weight, Reynolds number per length, CD sum), that their stored partials are the derivatives of those values, that CM is normalised by a chord that depends on the first surface only, that the literal atmosphere tables are mutually consistent at every node, and that AtmosComp uses one interpolant per quantity (no branch on the altitude). Does not decide continuity of the splines themselves.",
+    "Static: decides, as identities of expressions extracted from the source for generic surfaces, that the performance functionals equal the defining formulas of the property statement (L = q S CL, area-weighted coefficients, lift-equals-weight residual and weight, Breguet fuel burn, mass-weighted cg given Equilibrium's weight, Reynolds number per length, CD sum), that their stored partials are the derivatives of those values, that CM is normalised by a chord that depends on the first surface only, that the literal atmosphere tables are mutually consistent at every node, that AtmosComp uses one interpolant per quantity (no branch on the altitude), and that the performance groups promote every flight-condition / weight input of every functional (no functional left on its own default load factor, speed or weights). Does not decide continuity of the splines themselves.",
     TB + " Symbol positivity assumptions for physical quantities (rho, v, areas, masses).",
     "source-level expression extraction (sympy) per option valuation and normal-form comparison against the formulas of the statement",
     "DESIGN.md section 2 C17",
@@ -96,7 +96,7 @@ claim(
 
 claim(
     "C16",
-    "Static: decides, for every option valuation, that the load vector handed to the beam solve is the aerodynamic load plus each enabled inertial/thrust source exactly once; that distributed structural and fuel weight are lumped half/half on the end nodes of each element with total -(mass) g n in z only (fuel total halved for a half model) and equal and opposite end moments, and that the z forces summed over all nodes equal minus the total weight whatever the lumping idiom; that point-mass and thrust loads use weightings that sum to one, act along (0,0,-1) with magnitude m g n and (-1,0,0) with magnitude T, and carry moments (load point - node) x force; that structural mass is k times the sum of element masses (k = 2 only under symmetry) and the cg is modified only under symmetry; and that load_factor is promoted wherever a subsystem has it. Does not decide the numerical agreement with a closed-form beam solution.",
+    "Static: decides, for every option valuation, that the load vector handed to the beam solve is the aerodynamic load plus each enabled inertial/thrust source exactly once; that distributed structural and fuel weight are lumped half/half on the end nodes of each element with total -(mass) g n in z only (fuel total halved for a half model) and equal and opposite end moments, and that the z forces summed over all nodes equal minus the total weight whatever the lumping idiom; that point-mass and thrust loads use weightings that sum to one, act along (0,0,-1) with magnitude m g n and (-1,0,0) with magnitude T, and carry moments (load point - node) x force; that structural mass is k times the sum of element masses (k = 2 only under symmetry) and the cg is modified only under symmetry; and that load_factor is promoted wherever a subsystem has it. A component that never consults the symmetry flag has to satisfy the half-model and the full-model identity at once. Does not decide the numerical agreement with a closed-form beam solution.",
     TB,
     "source-level expression extraction (sympy, uninterpreted axis-sum and cross), store-event algebra on the load array, group promotion model, extensivity typing",
     "DESIGN.md section 2 C16",
@@ -112,7 +112,7 @@ claim(
 
 claim(
     "C07",
-    "Static: decides two structural necessary conditions of mirror symmetry for half models: the two components that detect the hand of a symmetric half (VortexMesh, EvalVelMtx) use complementary strict comparisons of |y| at the first and last spanwise node of the same mesh in set-up, evaluation and linearisation; and the geometry design variables do not contradict that: the sweep / dihedral displacement of a half is invariant under the mirror map (decided on the extracted expression), taper / twist do not hard-wire the last spanwise node as the root without testing the hand, the stretched span coordinate is odd under the mirror map, and the right-wing re-indexing of the influence array reverses the spanwise axis only. Does not decide the reflection equivariance of forces, displacements or stresses, nor the wingbox end-node stress recovery.",
+    "Static: decides three structural necessary conditions of mirror symmetry: the orientation predicate is consulted only for surfaces modelled with symmetry (a full-span surface has no hand; no branch depends on which of its tips is further from y=0); for half models, the two components that detect the hand of a symmetric half (VortexMesh, EvalVelMtx) use complementary strict comparisons of |y| at the first and last spanwise node of the same mesh in set-up, evaluation and linearisation; and the geometry design variables do not contradict that: the sweep / dihedral displacement of a half is invariant under the mirror map (decided on the extracted expression), taper / twist do not hard-wire the last spanwise node as the root without testing the hand, the stretched span coordinate is odd under the mirror map, and the right-wing re-indexing of the influence array reverses the spanwise axis only. Does not decide the reflection equivariance of forces, displacements or stresses, nor the wingbox end-node stress recovery.",
     TB,
     "AST canonicalisation of the orientation predicates; source-level expression extraction (sympy) with a mirror substitution; contradiction rule over enumerated root idioms",
     "DESIGN.md section 2 C07",
@@ -136,7 +136,7 @@ claim(
 
 claim(
     "C13",
-    "Static: decides, as identities of the expressions extracted from the source for arbitrary input meshes, that every transformation except Stretch returns its input mesh when its design variable has the default value (taper 1, chord 1, sweep / dihedral / shears / twist 0) under every option valuation, that GeometryMesh chains the nine transformations in the documented order with identity defaults and a default span consistent with Stretch, that sweep and dihedral displace x and z by tan(angle) times the distance from the root with the documented sign on both halves, that the taper weight is 1 at the tip(s) and 0 at the root with a linear blend (also when computed in a helper), that every transformation with a reference-axis option receives the surface's reference axis, and that reference-axis and design-variable defaults are taken by key presence. Does not decide Stretch's identity, area / chord-length invariants or B-spline behaviour.",
+    "Static: decides, as identities of the expressions extracted from the source for arbitrary input meshes, that every transformation except Stretch returns its input mesh when its design variable has the default value (taper 1, chord 1, sweep / dihedral / shears / twist 0) under every option valuation, that GeometryMesh chains the nine transformations in the documented order with identity defaults and a default span consistent with Stretch, that sweep and dihedral displace x and z by tan(angle) times the distance from the root with the documented sign on both halves, that the taper weight is 1 at the tip(s) and 0 at the root with a linear blend (also when computed in a helper), that every transformation with a reference-axis option receives the surface's reference axis, that the Geometry group promotes every geometric variable whose key is present into the mesh chain for both values of its <key>_dv flag, and that reference-axis and design-variable defaults are taken by key presence. Does not decide Stretch's identity, area / chord-length invariants or B-spline behaviour.",
     TB,
     "source-level expression extraction (sympy) with substitution of the default parameter values, uninterpreted concatenation / contraction, group model of GeometryMesh under fixed key-presence policies",
     "DESIGN.md section 2 C13",
